@@ -95,8 +95,8 @@ assume-func github.com/iotaledger/hive.go/runtime/timed.Queue.removeElement(t, e
 -- is marked removed), otherwise they stay; in both cases the handle invariant above holds when the heap lock is released
 assume-func github.com/iotaledger/hive.go/ds/bitmask.BitMask.HasBits(b, bits) (r)
   ensures true
-assume-func container/heap.Pop(h) (r)
-  modifies Queue.heap, allelems(int), generalheap.HeapElement.index
+-- (container/heap.Pop is code outside this claim: an unknown call - whatever it does to memory, afterwards the invariant
+-- is assumed to hold again, see above)
 func Queue.Shutdown
   instantiate T: int
   requires t != nil && t.waitCond != nil && t.ctxCancel != nil && unlocked(t.heapMutex) && unlocked(t.shutdownMutex)
